@@ -86,17 +86,28 @@ def run(ctx: Ctx) -> None:
     reports = []
     for _ in range(ctx.budget(60, 600)):
         items = [rng.choice(errs) if rng.random() < 0.8 else rng.choice(["refurb: oops", "x.py:1: error: bad  [syntax]"]) for _ in range(rng.randrange(0, 4))]
-        for fmt, color in (("text", False), ("text", True), ("github", False)):
+        by_combo = {}
+        for fmt, color in (("text", False), ("text", True), ("github", False), ("github", True)):
             for quiet in (False, True):
                 st = Settings(format=fmt, quiet=quiet)
                 st.color = color
                 out = rmain.format_errors([copy.copy(x) if not isinstance(x, str) else x for x in items], st)
                 reports.append((items, fmt, color, quiet, out))
+                by_combo[fmt, color, quiet] = out
                 has_err = any(not isinstance(x, str) for x in items)
                 hint = out.endswith("Use `--quiet` to silence this message")
                 ctx.count("format_errors")
                 if hint != (has_err and not quiet):
                     ctx.report("hint-condition", f"--explain hint {'present' if hint else 'absent'} with quiet={quiet}, diagnostics={has_err}", {"format": fmt, "quiet": quiet})
+        # the same report under every format/colour combination: colour only adds escapes to the text format and
+        # leaves the GitHub annotations alone
+        for quiet in (False, True):
+            if by_combo["github", True, quiet] != by_combo["github", False, quiet]:
+                ctx.report("formats-disagree:github-with-colour", "--format github prints different annotations when colour is on", {
+                    "messages": [x if isinstance(x, str) else x.msg for x in items], "colour_on": by_combo["github", True, quiet][:600], "colour_off": by_combo["github", False, quiet][:600]})
+            if re.sub(r"\x1b\[[0-9;]*m", "", by_combo["text", True, quiet]) != re.sub(r"\x1b\[[0-9;]*m", "", by_combo["text", False, quiet]):
+                ctx.report("color-changes-text:report", "the coloured report minus its escape sequences is not the plain report", {
+                    "messages": [x if isinstance(x, str) else x.msg for x in items], "colour_on": by_combo["text", True, quiet][:600], "colour_off": by_combo["text", False, quiet][:600]})
     # ---- correspondence with the Coq model
     if b.ok:
         hdr = ("From Lib Require Import Base Render.\nOpen Scope list_scope.\nSet Printing Width 100000.\n"
@@ -142,7 +153,8 @@ def run(ctx: Ctx) -> None:
                        not mism, "; ".join(mism[:5]))
     cli_matrix(ctx)
     perturb(ctx)
-    ctx.resolve_broken({"color_only_adds_escapes": "color-changes-text", "one_line": "multi-line", "hint_iff": "hint-condition"}, b.first_error)
+    ctx.resolve_broken({"color_only_adds_escapes": "color-changes-text", "one_line": "multi-line", "hint_iff": "hint-condition",
+                        "correspondence: Lib/Render.v plain/color/github/format_errors = the real renderers on every generated error and report": ("formats-disagree", "color-changes-text", "hint-condition", "multi-line", "exit-status")}, b.first_error)
 
 
 def cli_matrix(ctx: Ctx) -> None:
